@@ -610,3 +610,59 @@ Example C14_example_streams :
   sc_case false 4 4 3 = (repeat false 4, repeat false 3) /\ sc_case true 4 4 3 = (repeat false 4, repeat true 3) /\
   sc_case false 4 3 3 = (repeat false 3, repeat true 3).
 Proof. exact sc_witness. Qed.
+
+(* =====================================================================================================================
+   Round 6 — the release of the stream credit as an explicit step on EVERY exit of exchangeStream (Net/Streams.v,
+   second part; proofs Net/StreamsProofs.v): reply read / read error / ctx done, against every way a server may treat
+   ITS side of the stream (FIN with the reply, no FIN, late FIN, reset after the reply, reset, short frame, lying
+   length, silence).
+   ===================================================================================================================== *)
+
+(* the code aborts the receive side (CancelRead = STOP_SENDING) on every exit ... *)
+Theorem C14_cancel_read_on_every_exit : forall x, sc_cancels sc_code x = true.
+Proof. exact sc_code_cancels_on_every_exit. Qed.
+Print Assumptions C14_cancel_read_on_every_exit.
+
+(* ... so the credit returns on every path: whatever the server does, the exit of an exchange leaves the peer's
+   account of open streams as it was *)
+Theorem C14_stream_credit_returns_on_every_path : forall v a, sc_release sc_code v a = a.
+Proof. exact sc_credit_returns_on_every_path. Qed.
+Print Assumptions C14_stream_credit_returns_on_every_path.
+
+(* which exits need it (after a read error the server has already finished its side) *)
+Theorem C14_sufficient_cancel_policy : forall p v a,
+  pol_reply p = true -> pol_ctx p = true -> sc_release p v a = a.
+Proof. exact sc_sufficient_policy. Qed.
+Print Assumptions C14_sufficient_cancel_policy.
+
+(* any sequence of exchanges (answered or not, any server behaviour) and pauses on one connection: every exchange a
+   server answers gets its reply, and at the end the server counts no stream *)
+Theorem C14_every_answered_exchange_delivered : forall ss a i v,
+  0 < sa_cap a -> sa_stuck a = 0 -> sa_pending a = 0 ->
+  nth_error ss i = Some (Sx v) ->
+  nth_error (fst (sc_run2 sc_code a ss)) i = Some (Some (match sc_exit_of v with ScxReply => true | _ => false end)) /\
+  sc_used (snd (sc_run2 sc_code a ss)) = 0.
+Proof. exact sc_code_every_answer_delivered. Qed.
+Print Assumptions C14_every_answered_exchange_delivered.
+
+(* the scenarios of the kind "streams" for limits 1-6, every answering x every non-answering server behaviour, 0-8
+   abandoned and 0-14 answered exchanges: abandoned fail, answered succeed, nothing is left at the server *)
+Theorem C14_stream_scenarios : sc_grid_code = true.
+Proof. exact sc_grid. Qed.
+Print Assumptions C14_stream_scenarios.
+
+(* REFUTED for the variant that cancels only when the read FAILED: after as many correctly answered exchanges as the
+   peer allows streams - against a server that does not FIN - every later exchange on the connection fails, and no
+   pause heals it *)
+Theorem C14_cancel_only_on_error_refuted : forall cap ss,
+  Forall (fun o => o = None \/ o = Some false)
+         (fst (sc_run2 sc_only_on_error (snd (sc_run2 sc_only_on_error (mkAcct cap 0 0) (repeat (Sx SvNoFin) cap))) ss)).
+Proof. exact sc_only_on_error_wedges. Qed.
+Print Assumptions C14_cancel_only_on_error_refuted.
+
+Example C14_example_release :
+  sc_case2 sc_only_on_error 4 SvNoFin SvLie 0 8 = ([], [true; true; false; false; false; false; false; false], 4) /\
+  sc_case2 sc_only_on_error 3 SvLateFin SvLie 0 7 = ([], [true; false; false; false; false; false; false], 0) /\
+  sc_case2 sc_code 4 SvNoFin SvLie 0 8 = ([], repeat true 8, 0) /\
+  sc_case2 sc_not_on_ctx 4 SvFin SvLie 4 3 = (repeat false 4, repeat false 3, 4).
+Proof. exact sc_witness2. Qed.
